@@ -3,7 +3,8 @@ Unverified glue (DESIGN §8).
 
 1. OPERAND FORMS.  A case is a one-operator tree (gen/arithcases.py: ("B", op, A, B),
    ("U", op, A) or ("C", c, A, B), operands are atoms) and one form per operand:
-     lit    the operand is written with literal leaves           (the reducer sees a constant)
+     lit    the operand is written with literal leaves           (the reducer sees a constant;
+            a leaf of kind e is an enumerator `E::k<n>` of a generated enum)
      var    every leaf of the operand sits in a variable         (nothing to reduce)
      call   the operand's value goes through a function that prints a tag: a non-constant
             operand whose evaluation is observable               `ni(<operand no>, <var form>)`
@@ -76,20 +77,22 @@ def form_program(tree, forms, ret):
     ops = operands(t)
     binds, texts, helpers, zeros = [], [], set(), set()
     nvar = [0]
+    # enumerator operands (leaf kind e): one enum declaring every enumerator value of the tree
+    decl, enames = ac.enum_decl(t)
 
     def var_text(o):
         ls = ac.leaves(o)
         names = []
         for l in ls:
             names.append("v%d" % nvar[0])
-            binds.append("var v%d = %s;" % (nvar[0], ac.lit_text(l, {})))
+            binds.append("var v%d = %s;" % (nvar[0], ac.lit_text(l, enames)))
             nvar[0] += 1
         return ac.expr_text(o, lambda i, leaf: names[i])
 
     for i, (o, f) in enumerate(zip(ops, forms)):
         k = static_kind(o)
         if f == "lit":
-            texts.append(ac.expr_text(o, lambda j, leaf: ac.lit_text(leaf, {})))
+            texts.append(ac.expr_text(o, lambda j, leaf: ac.lit_text(leaf, enames)))
         elif f == "var":
             texts.append(var_text(o))
         elif f in ("call", "call0"):
@@ -111,7 +114,7 @@ def form_program(tree, forms, ret):
     funcs = "".join("func %s(t : int, v : %s) -> %s { prints(\"<\" + t + \">\\n\"); v }\n"
                     % (NOISY[k], ac.KIND_TY[k], ac.KIND_TY[k]) for k in sorted(helpers))
     zb = " ".join("var %s = %s;" % ZERO[k] for k in sorted(zeros))
-    return "%sfunc main() -> %s { %s %s %s }" % (funcs, ret, " ".join(binds), zb, body)
+    return "%s%sfunc main() -> %s { %s %s %s }" % (decl, funcs, ret, " ".join(binds), zb, body)
 
 
 def trace_of(rec):
@@ -201,7 +204,7 @@ def var_version(forms):
 
 # literal operands that make an operator an identity / an absorbing element: the values a
 # one-sided rewrite rule (x*0 -> 0, x && false -> false, x + 0 -> x ...) would look for
-SPECIAL = {"b": [0, 1], "i": [0, 1, -1], "l": [0, 1, -1],
+SPECIAL = {"b": [0, 1], "i": [0, 1, -1], "l": [0, 1, -1], "e": [0, 1, -1],
            "f": [0x00000000, 0x3F800000, 0x80000000, 0xBF800000],
            "d": [0x0000000000000000, 0x3FF0000000000000, 0x8000000000000000, 0xBFF0000000000000]}
 
